@@ -229,26 +229,10 @@ def d13_2(ctx):
     good = len(got) == 1 and (got[0][0], got[0][1]) == (lo, hi) and got[0][2] and _type_size(ctx, reg.module, got[0][2]) == 4
     ctx.check(good, ckey(reg.key + "._parse_reply", "session"), got[0][3] if got else reg.node, "session handle at [4:8] as a 4-byte integer",
               "session handle is not read from raw[4:8] with a 4-byte decoder", got=[g[:3] for g in got])
-    # extended status reader: status byte, size byte in words, width dispatch
-    ges = ctx.model.func(f"{PU}:get_extended_status")
-    widths = {}
-    mult = None
-    for n in walk(ges.node):
-        if isinstance(n, ast.Assign) and len(n.targets) == 1 and attr_path(n.targets[0]) == "extended_status_size":
-            v = n.value
-            if isinstance(v, ast.BinOp) and isinstance(v.op, (ast.Mult, ast.LShift)):
-                k = ctx.folder.eval(v.right, ges.module)
-                mult = k if isinstance(v.op, ast.Mult) else (1 << k if isinstance(k, int) else None)
-        if isinstance(n, ast.If) and isinstance(n.test, ast.Compare) and attr_path(n.test.left) == "extended_status_size" and isinstance(n.test.ops[0], ast.Eq):
-            k = ctx.folder.eval(n.test.comparators[0], ges.module)
-            for st in n.body:
-                if isinstance(st, ast.Assign) and isinstance(st.value, ast.Call) and isinstance(st.value.func, ast.Attribute) and st.value.func.attr == "decode":
-                    widths[k] = _type_size(ctx, ges.module, attr_path(st.value.func.value))
-    want = {int(k): v for k, v in sp["ext_status_widths_by_byte_size"].items()}
-    bad = {k: w for k, w in widths.items() if k in want and w != want[k]}
-    missing = [k for k in want if k not in widths]
-    ctx.check(mult == 2 and not bad and not missing, ckey(ges, "widths"), ges.node, "additional-status size counted in words; 2->UINT, 4->UDINT",
-              f"extended status size/width dispatch deviates: multiplier {mult}, widths {widths}, spec {want}", widths=widths, multiplier=mult)
+    # extended status reader (status byte, size byte counted in words, the word(s) read with the width the size says): decided by
+    # folding get_extended_status on witness replies (D13.8: one-word extended codes at both offsets, no extended words, unknown
+    # code, unknown size) - an earlier form matched the `if size == n` ladder and alarmed when it became a table lookup
+    d13_8(ctx)
 
 
 def _parse_reply_contained(ctx, cls, memo):
@@ -379,21 +363,15 @@ def d13_5(ctx):
             ctx.violation(ckey(base.key + ".error"), node, why)
     else:
         ctx.ok(ckey(base.key + ".error"), fn, "None only when valid; every other path returns a non-empty text", returns=len(rets))
-    # get_service_status: table lookup with a hex fall-back
-    gss = ctx.model.func(f"{PU}:get_service_status")
-    good, facts = False, {}
-    for n in walk(gss.node):
-        if isinstance(n, ast.Return) and isinstance(n.value, ast.Call) and isinstance(n.value.func, ast.Attribute) and n.value.func.attr == "get" and len(n.value.args) == 2:
-            param = gss.node.args.args[0].arg
-            d = n.value.args[1]
-            facts["default"] = src(d)
-            if attr_path(n.value.args[0]) == param and isinstance(d, ast.JoinedStr):
-                for fv in d.values:
-                    if isinstance(fv, ast.FormattedValue) and attr_path(fv.value) == param and fv.format_spec is not None:
-                        spec_txt = "".join(x.value for x in fv.format_spec.values if isinstance(x, ast.Constant))
-                        if spec_txt.lower().endswith("x"):
-                            good = True
-    ctx.check(good, ckey(gss), gss.node, "unknown status codes fall back to a text with the hex code", "status lookup has no default containing the status in hex", **facts)
+    # get_service_status: the table's text for a known code, a text naming the code in hex for an unknown one (folded on witnesses)
+    from .common import service_status_witnesses
+
+    gss, wit = service_status_witnesses(ctx)
+    for ok, role, want, got in wit:
+        if ok is None:
+            ctx.undecided(ckey(gss, role), gss.node, f"get_service_status not foldable: {got}")
+        else:
+            ctx.check(ok, ckey(gss, role), gss.node, f"{role}: {want}", f"get_service_status ({role}) gives {got}; expected {want}")
     table = ctx.folder.module_value(gss.module.name, "SERVICE_STATUS")
     if isinstance(table, dict):
         bad = {k: v for k, v in table.items() if not (isinstance(v, str) and v)}
@@ -413,48 +391,15 @@ def d13_5(ctx):
             ctx.check(not bad and ends, ckey(f"{c.key}.{mname}"), m, "returns text on every path", "extended status text can be None/empty")
 
 
-@rule(P, "D13.6", "T-DOM", floor=4)
+@rule(P, "D13.6", "T-WITNESS", floor=4)
 def d13_6(ctx):
-    """_send_requests maps a falsy (sub-)response to Tag(..., None, None, <error>) and a truthy one to its value."""
-    fn = ctx.model.func(f"{LX}:LogixDriver._send_requests")
-    g = ctx.cfg(fn.node)
-    for call in walk(fn.node):
-        if not (isinstance(call, ast.Call) and call_name(call) == "Tag"):
-            continue
-        st = call
-        while not isinstance(st, ast.stmt):
-            st = getattr(st, "_parent")
-        nodes = g.nodes_of(st)
-        if not nodes:
-            continue
-        n = nodes[0]
-        # which truthiness tests of a response dominate this construction, and on which branch?
-        branch = None
-        inside_handler = False
-        p = getattr(st, "_parent", None)
-        while p is not None and p is not fn.node:
-            if isinstance(p, ast.ExceptHandler):
-                inside_handler = True
-            p = getattr(p, "_parent", None)
-        for t in g.nodes:
-            if t.kind == "test" and isinstance(t.ast, ast.Name) and t.ast.id in ("response", "resp"):
-                if g.branch_dominates(t, True, n):
-                    branch = True
-                elif g.branch_dominates(t, False, n):
-                    branch = False
-        args = list(call.args)
-        kw = {k.arg: k.value for k in call.keywords}
-        value = args[1] if len(args) > 1 else kw.get("value")
-        error = args[3] if len(args) > 3 else kw.get("error")
-        key = ckey(fn, f"Tag@{'handler' if inside_handler else ('truthy' if branch else 'falsy' if branch is False else 'unguarded')}:{src(args[0]) if args else ''}")
-        if inside_handler or branch is False:
-            good = isinstance(value, ast.Constant) and value.value is None and error is not None and not (isinstance(error, ast.Constant) and error.value is None)
-            ctx.check(good, key, call, "failed (sub-)response yields value None and an error text", "a failed response is reported with a value or without an error", value=src(value) if value else None, error=src(error) if error else None)
-        elif branch is True:
-            good = value is not None and not (isinstance(value, ast.Constant) and value.value is None)
-            ctx.check(good, key, call, "successful response carries its value", "successful response loses its value", value=src(value) if value else None)
-        else:
-            ctx.violation(key, call, "Tag built from a response without testing its validity")
+    """_send_requests maps a failed reply - and a failed member of a multi-service reply, whatever the enclosing reply says - to a
+    Tag with no value and the error text, and a valid one to its value.  Decided by folding on witness requests and replies
+    (D1.16).  An earlier form looked for the Tag constructions inside `_send_requests` and fell below its floor when they were
+    extracted into helper methods."""
+    from .driver import d1_16
+
+    d1_16(ctx)
 
 
 @rule(P, "D13.7", "T-NULL", floor=4)
@@ -600,6 +545,16 @@ def d13_8(ctx):
             ctx.undecided(key, ges.node, f"not foldable: {res}")
             continue
         ctx.check(kind == "return" and res == want, key, ges.node, f"{label} -> {want!r}", f"{label}: {kind} {res!r} (expected {want!r})")
+    # replies cut inside the status block: whatever the reader does, it does not fail with a foreign exception (an index / key /
+    # type error out of `error` would crash the caller that only wanted the text)
+    for label, msg in (("cut right after the status byte", bytes(48) + b"\x04"), ("cut before the status byte", bytes(48)), ("cut inside the extended word", bytes(48) + b"\x04\x01\x05")):
+        kind, res = run_function(ctx, ges.module, ges.node, {a_msg: msg, a_start: 48})
+        key = ckey(ges, f"witness:{label}")
+        if kind == "unknown":
+            ctx.undecided(key, ges.node, f"not foldable: {res}")
+            continue
+        ok = kind == "return" or (kind == "raise" and res in ("DataError", "BufferEmptyError"))
+        ctx.check(ok, key, ges.node, f"{label}: a text, None or the codec's own DataError", f"{label}: {kind} {res!r} - a foreign exception escapes the status reader")
     # the per-class formatters
     for cname, off in (("SendUnitDataResponsePacket", 48), ("SendRRDataResponsePacket", 42)):
         c = ctx.model.cls(f"{PE}:{cname}")
